@@ -8,7 +8,13 @@ Open Scope Z_scope.
 Record round := {
   r_cdi : bool;               (* input: the plugin renders CDI device names *)
   r_ids : list string;        (* input: reserved GPU indexes of the selected GPU groups (BindingState) *)
-  r_portion : string;         (* input: BindRequest.Spec.ReceivedGPU.Portion, as the scheduler renders the grant *)
+  r_portion : string;         (* observed: Spec.ReceivedGPU.Portion of the BindRequest the REAL scheduler cache created for the
+                                 pod (NewTaskInfo, NodeInfo.AddTask on a node, SchedulerCache.Bind -> createBindRequest on a
+                                 fake clientset); that BindRequest is what PreBind gets *)
+  r_accepted : N;             (* observed: bits of AcceptedResource's portion, what the scheduler books per device on that node *)
+  r_exact : bool;             (* observed: GPU_PORTION and RUNAI_NUM_OF_GPUS the selected container starts with both parse
+                                 (strconv.ParseFloat) to exactly that portion *)
+  r_close : bool;             (* observed: ... to within half a hundredth of it *)
   r_ok : bool;                (* observed: PreBind returned nil *)
   r_maps : cmstore;           (* observed: the namespace's ConfigMaps afterwards (sorted by name, data by key) *)
   r_env : list (ctype * nat * envval * envval)
@@ -221,6 +227,52 @@ Definition monitor_ok (k : case) : bool :=
   && (if admitted k then k_bvalid k else true)
   (* per-container selection: selected, wired and materialised identically *)
   && selection_ok k.
+
+(** ** the portion the selected container is told is the portion the scheduler interpreted and booked.
+    For a fraction request that is the request's own fraction (bit for bit what NewTaskInfo read); for a gpu-memory
+    request the node-specific portion AddTask computed.  The parse and the comparison are done by the harness
+    (strconv.ParseFloat, ==) on the values the container starts with. *)
+Definition fraction_request (k : case) : bool :=
+  isSome (a_fraction (k_pod k)) && negb (isSome (a_memory (k_pod k))).
+Definition rounds_of (k : case) : list round :=
+  match k_bind k with Some b => b_rounds b | None => [] end.
+Definition portion_exact (k : case) : bool :=
+  if admitted_sharing k then
+    forallb (fun r => r_exact r
+                      && (if fraction_request k then (r_accepted r =? g_portion (k_req k))%N else true))
+            (rounds_of k)
+  else true.
+(** every told portion is at least the nearest hundredth of the booked one, and the booked one is the request's *)
+Definition portion_close (k : case) : bool :=
+  if admitted_sharing k then
+    forallb (fun r => r_close r
+                      && (if fraction_request k then (r_accepted r =? g_portion (k_req k))%N else true))
+            (rounds_of k)
+  else true.
+
+(** Behaviour of the code as it is that [portion_exact] does not accept; reported by [run_flags], left out of
+    [monitor_ok]:
+    1: everything else holds (in particular the container starts with exactly the BindRequest's portion string), but
+       that string is the booked portion rounded to two decimals (createBindRequest renders it with "%.2f"), so a
+       fraction with more than two decimals reaches the container as another number (0.125 -> 0.12, 0.001 -> 0.00,
+       0.999 -> 1.00);
+    2: the told portion is off by more than a rounding to hundredths (not a listed finding). *)
+Definition flags_of (k : case) : list nat :=
+  if monitor_ok k && negb (portion_exact k) then (if portion_close k then [1%nat] else [2%nat]) else [].
+
+Definition mem_nat (n : nat) (l : list nat) : bool := existsb (Nat.eqb n) l.
+(** every flag is reported for the first case of the shard that shows it *)
+Fixpoint first_flags (seen : list nat) (cs : list (nat * case)) : list (nat * list nat) :=
+  match cs with
+  | [] => []
+  | (i, k) :: r =>
+      let fresh := filter (fun f => negb (mem_nat f seen)) (flags_of k) in
+      match fresh with
+      | [] => first_flags seen r
+      | _ => (i, fresh) :: first_flags (fresh ++ seen) r
+      end
+  end.
+Definition run_flags (cs : list (nat * case)) : list (nat * list nat) := first_flags [] cs.
 
 Definition run_mismatches (cs : list (nat * case)) : list nat := failing (fun k => negb (model_agrees k)) cs.
 Definition run_monitor (cs : list (nat * case)) : list nat := failing (fun k => negb (monitor_ok k)) cs.
